@@ -788,6 +788,29 @@ static int views_agree (V &v)     // bit 0: member views contiguous / consistent
   if (n > 0)
     ok = ok && (&v.front () == v.data ()) && (&v.back () == v.data () + (n - 1))
             && (&cv.front () == v.data ()) && (&cv.back () == v.data () + (n - 1));
+  // iterator algebra (random access requirements) on iterator and const_iterator
+  {
+    typedef typename V::iterator it_t;
+    typedef typename V::const_iterator cit_t;
+    typedef typename V::difference_type d_t;
+    it_t b = v.begin (), e = v.end ();
+    cit_t cb = b;                      // iterator -> const_iterator
+    ok = ok && (cb == v.cbegin ()) && (b == cb) && ! (b != cb) && (e - b == static_cast<d_t> (n)) && (cv.end () - cb == static_cast<d_t> (n));
+    ok = ok && (b <= e) && (e >= b) && ! (e < b) && ! (b > e) && ((b < e) == (n > 0)) && ((cb < cv.end ()) == (n > 0));
+    for (sz_t i = 0; i < n && ok; ++i)
+      {
+        d_t k = static_cast<d_t> (i);
+        it_t p = b; p += k;
+        it_t q = e; q -= static_cast<d_t> (n - i);
+        it_t r = b; for (sz_t j = 0; j < i; ++j) { if (j & 1) ++r; else r++; }
+        it_t s = e; for (sz_t j = i; j < n; ++j) { if (j & 1) --s; else s--; }
+        ok = ok && (&*p == v.data () + i) && (p == q) && (r == p) && (s == p) && (k + b == p) && (e - static_cast<d_t> (n - i) == p)
+                && (&b[k] == v.data () + i) && (&cb[k] == v.data () + i) && (p - b == k) && (p.operator-> () == v.data () + i)
+                && ((p < e)) && (b <= p) && (p >= b) && ((p > b) == (i > 0));
+        cit_t cp = cb + k;
+        ok = ok && (cp == p) && (p == cp) && (cp - cb == k) && (cp - b == k) && (p - cb == k) && ((cp < e) && (b <= cp));
+      }
+  }
   bool nm = true;
 #if ! CFG_VECTOR
   bool mem_ok = ok;
@@ -1778,12 +1801,14 @@ static void print_cfg ()
   fprintf (g_out,
            "{\"t\":\"cfg\",\"name\":\"%s\",\"na\":%d,\"nb\":%d,\"elem\":\"%s\",\"nothrowMove\":%s,\"copyable\":%s,\"hasMove\":%s,"
            "\"nothrowMoveCtor\":%s,\"nothrowMoveAssign\":%s,\"tracked\":%s,\"isStd\":%s,\"pocca\":%s,\"pocma\":%s,\"pocs\":%s,\"ae\":%s,\"construct\":%s,\"sizet\":%d,"
-           "\"max\":%ld,\"soccc\":%d,\"std\":%ld,\"compiler\":\"%s\",\"concepts\":%d,\"vector\":%s,\"szA\":%zu,\"szB\":%zu}\n",
+           "\"max\":%ld,\"allocMax\":%ld,\"diffMax\":%ld,\"soccc\":%d,\"std\":%ld,\"compiler\":\"%s\",\"concepts\":%d,\"vector\":%s,\"szA\":%zu,\"szB\":%zu}\n",
            CFG_NAME, CFG_NA, CFG_NB, elem_name (), ELEM_NOTHROW_MOVE ? "true" : "false", ELEM_COPYABLE ? "true" : "false",
            ELEM_HAS_MOVE ? "true" : "false", ELEM_NOTHROW_MOVE_CTOR ? "true" : "false", ELEM_NOTHROW_MOVE_ASSIGN ? "true" : "false",
            ELEM_TRACKED ? "true" : "false", CFG_ALLOC == 0 ? "true" : "false",
            CFG_POCCA ? "true" : "false", CFG_POCMA ? "true" : "false", CFG_POCS ? "true" : "false",
-           CFG_AE ? "true" : "false", CFG_CONSTRUCT ? "true" : "false", CFG_SIZET, natural_max, CFG_SOCCC,
+           CFG_AE ? "true" : "false", CFG_CONSTRUCT ? "true" : "false", CFG_SIZET, natural_max,
+           clamp30 (std::allocator_traits<Alloc>::max_size (make_alloc (1))),
+           clamp30 (static_cast<unsigned long long> ((std::numeric_limits<std::allocator_traits<Alloc>::difference_type>::max) ())), CFG_SOCCC,
            static_cast<long> (__cplusplus), comp, concepts, CFG_VECTOR ? "true" : "false", sizeof (VA), sizeof (VB));
 }
 
